@@ -704,6 +704,9 @@ class Interp:
         return m(st, n, tree)
 
     def ev_Constant(self, st, n, tree):
+        hook = getattr(n, "_term_hook", None)
+        if hook is not None:
+            return hook(st, tree)          # a synthesised expression of a lowered construct (scan loops)
         return const(n.value)
 
     def ev_Name(self, st, n, tree):
@@ -1122,8 +1125,69 @@ class Interp:
         return NONE
 
     # comprehensions: one abstract iteration, as a loop node with the element as a segment
+    def _map_source(self, it):
+        """(source, element expression, loop id) when ``it`` is a list that holds exactly one computed value per element of
+        another sequence (a finished ``map`` / comprehension without conditions): walking it is walking the source."""
+        o = self.obj(it)
+        if not (isinstance(o, HList) and not getattr(o, "dirty", False) and len(o.segs) == 1 and o.segs[0][0] == "loop"
+                and len(o.segs[0][2]) == 1 and o.segs[0][2][0][0] == "e"):
+            return None
+        l0 = o.segs[0][1]
+        info = self.loops.get(l0, {})
+        if info.get("conds") or info.get("iter") is None or not (info.get("kind") == "comp" or getattr(o, "map_loop", None) == l0):
+            return None
+        E = o.segs[0][2][0][1]
+
+        def plain(t):
+            if not isinstance(t, tuple) or not t:
+                return True
+            if t[0] in ("ref", "phi", "loopout", "drawn"):
+                return False
+            return all(plain(x) for x in t)
+        if not plain(E):
+            return None
+        return info["iter"], E, l0
+
+    @staticmethod
+    def _subst_loop(t, l0, lid):
+        if not isinstance(t, tuple):
+            return t
+        if t == ("elem", l0):
+            return ("elem", lid)
+        if t == ("idx", l0):
+            return ("idx", lid)
+        return tuple(Interp._subst_loop(x, l0, lid) for x in t)
+
     def _comp(self, st, n, tree, kind):
         gens = n.generators
+        if kind in ("list", "gen") and len(gens) == 1 and isinstance(gens[0].iter, ast.Call) and isinstance(gens[0].iter.func, ast.Name) \
+                and gens[0].iter.func.id == "zip" and len(gens[0].iter.args) == 2 and not gens[0].is_async:
+            # a comprehension over a running fold zipped with its source is the loop that appends (see _scan_zip)
+            k = next(self._loop)
+            rn = f"__scan{k}_out"
+            app = ast.Expr(value=ast.Call(func=ast.Attribute(value=ast.Name(id=rn, ctx=ast.Load()), attr="append", ctx=ast.Load()),
+                                          args=[n.elt], keywords=[]))
+            body = [app]
+            for c in reversed(gens[0].ifs):
+                body = [ast.If(test=c, body=body, orelse=[])]
+            loop = ast.For(target=gens[0].target, iter=gens[0].iter, body=body, orelse=[])
+            ast.copy_location(loop, n)
+            ast.fix_missing_locations(loop)
+            saved = {x.id: st.env.get(x.id) for x in ast.walk(gens[0].target) if isinstance(x, ast.Name)}
+            probe = st.fork()
+            probe.env[rn] = self.alloc(HList([], self.origin(n)))
+            ptree: list = []
+            out = self._scan_zip(loop, probe, ptree)
+            if out is not None and out.live is not None:
+                tree.append(("alloc", probe.env[rn], getattr(n, "lineno", None)))
+                tree.extend(ptree)
+                st.env, st.ext = out.live.env, out.live.ext
+                for nm, v in saved.items():       # comprehension variables are local to it
+                    if v is None:
+                        st.env.pop(nm, None)
+                    else:
+                        st.env[nm] = v
+                return st.env.pop(rn)
         return self._comp_rec(st, n, gens, 0, tree, kind)
 
     def _comp_rec(self, st, n, gens, i, tree, kind):
@@ -1161,7 +1225,12 @@ class Interp:
                 return self.new_list(segs, n, tree)
         lid = next(self._loop)
         f = st.fork()
-        self.bind_target(f, g.target, ("elem", lid), lid, it)
+        ms = self._map_source(it)
+        if ms is not None:
+            it = ms[0]
+            self.bind_target(f, g.target, self._subst_loop(ms[1], ms[2], lid), lid, it)
+        else:
+            self.bind_target(f, g.target, ("elem", lid), lid, it)
         sub: list = []
         conds = tuple(self.ev(f, c, sub) for c in g.ifs)
         info = {"id": lid, "kind": "comp", "iter": it, "conds": conds, "line": n.lineno, "carried": {}}
@@ -1320,6 +1389,13 @@ class Interp:
             return self.call_builtin(st, f[1], self.force_args(st, args, tree, n), kwargs, n, tree)
         if k == "extname":
             nm = f[1]
+            if nm == "itertools.islice" and len(args) == 3 and args[1] == const(1) and is_const(args[2], None) and not kwargs:
+                g0 = self.obj(args[0])
+                if isinstance(g0, HGen) and g0.qualname == "gsa_prelude.p_accumulate_initial" and g0.forced is None \
+                        and not getattr(g0, "consumed", False):
+                    # a running fold without its initial element: every element is the fold after that input
+                    g0.consumed = True
+                    return self.call_function(st, self.facts.prelude().functions["p_scan_inclusive"], list(g0.args), {}, n, tree)
             args = self.force_args(st, args, tree, n)
             if nm in ("typing.cast", "typing_extensions.cast") and len(args) == 2:
                 self._note_cast(n, args[1])
@@ -1436,7 +1512,7 @@ class Interp:
                 and (args[1][0] == "tuple" or isinstance(self.obj(args[1]), HList)):
             return ("p_reduce_seq", list(args))
         if name == "itertools.accumulate" and len(args) in (1, 2) and "initial" in kw and set(kw) <= {"initial", "func"}:
-            fn = args[1] if len(args) == 2 else kw.get("func")
+            fn = args[1] if len(args) == 2 else kw.get("func", ("extname", "operator.add"))
             if fn is not None and self._callable_known(fn):
                 return ("p_accumulate_initial", [args[0], fn, kw["initial"]])
         # takewhile / dropwhile stay symbolic: the rules that meet them (trailing-run trims) read them as such
@@ -1622,6 +1698,47 @@ class Interp:
             o = self.obj(L)
             o.segs = [("e", v) for v in vals]
             o.dirty = False
+            return
+        # one unconditional yield per round of a single loop (a map): the list is that loop's elements
+        if gtree is None:
+            return
+        def walk(nodes, ctx):
+            for x in nodes:
+                yield x, ctx
+                if x[0] == "if":
+                    yield from walk(x[2], ctx + (x,))
+                    yield from walk(x[3], ctx + (x,))
+                elif x[0] in ("loop", "call"):
+                    yield from walk(x[2], ctx + (x,))
+                elif x[0] == "try":
+                    yield from walk(x[1], ctx + (x,))
+                    for h in x[2]:
+                        yield from walk(h[2], ctx + (x,))
+        sites = [(m, ctx) for m, ctx in walk(gtree, ()) if m[0] == "mutate" and m[1] == L]
+        if len(sites) != 1 or sites[0][0][2] != "append":
+            return
+        m, ctx = sites[0]
+        inner = [c for c in ctx if c[0] != "call"]
+        if len(inner) != 1 or inner[0][0] != "loop":
+            return
+        l0 = inner[0][1]
+        info = self.loops.get(l0, {})
+        if info.get("kind") != "for" or info.get("conds") or "break_env" in info or info.get("iter") is None:
+            return
+        loop_node = next((x for x, _ in _iter_nodes(gtree) if x[0] == "loop" and x[1] == l0), None)
+        if loop_node is None or any(x[0] in ("return", "raise", "break", "continue", "yield", "yieldfrom") for x, _ in _iter_nodes(loop_node[2])):
+            return
+
+        def strip1(nodes):
+            nodes[:] = [x for x in nodes if x is not m]
+            for x in nodes:
+                if x[0] in ("call", "loop"):
+                    strip1(x[2])
+        strip1(gtree)
+        o = self.obj(L)
+        o.segs = [("loop", l0, [("e", m[3][0])])]
+        o.dirty = False
+        o.map_loop = l0
 
     def force_args(self, st, args, tree, node):
         out = []
@@ -1657,6 +1774,12 @@ class Interp:
         # defaults
         defaults = [None] * (len(params) - len(a.defaults)) + list(a.defaults)
         pos = list(args)
+        stars = [i for i, x in enumerate(pos) if isinstance(x, tuple) and x and x[0] == "star"]
+        if len(stars) == 1 and a.vararg is None and not a.defaults and not kwargs and len(pos) - 1 <= len(params):
+            # ``f(*xs)`` into a callee that takes a fixed number of positional arguments: xs has exactly the missing ones
+            i0 = stars[0]
+            need = len(params) - (len(pos) - 1)
+            pos[i0:i0 + 1] = [self.get_item(st, pos[i0][1], const(j)) for j in range(need)]
         for i, p in enumerate(params):
             if i < len(pos) and not (isinstance(pos[i], tuple) and pos[i][0] == "star"):
                 callee.env[p.arg] = pos[i]
@@ -2288,8 +2411,12 @@ class Interp:
         lid = next(self._loop)
         info = {"id": lid, "kind": kind, "line": s.lineno, "carried": {}, "carried_init": {}}
         self.loops[lid] = info
+        ms = None
         if kind == "for":
             it = self.ev(st, s.iter, tree)
+            ms = self._map_source(it)
+            if ms is not None:
+                it = ms[0]
             info["iter"] = it
         names = self._assigned_names(s.body)
         aug_only = self._aug_only_names(s.body)
@@ -2316,7 +2443,7 @@ class Interp:
                 attr_keys.append((b, a, key))
         sub: list = []
         if kind == "for":
-            self.bind_target(f, s.target, ("elem", lid), lid, it)
+            self.bind_target(f, s.target, self._subst_loop(ms[1], ms[2], lid) if ms is not None else ("elem", lid), lid, it)
             # iteration over an inline generator / filter keeps its conditions
         else:
             info["test"] = self.ev(f, s.test, sub)
@@ -2492,9 +2619,104 @@ class Interp:
             and isinstance(s.body[0].body[0], ast.Break) and isinstance(s.target, ast.Name) \
             and not any(isinstance(x, (ast.NamedExpr, ast.Yield, ast.YieldFrom, ast.Await)) for x in ast.walk(s.body[0].test))
 
+    SCANS = ("gsa_prelude.p_accumulate_initial", "gsa_prelude.p_scan_inclusive")
+
+    def _scan_zip(self, s, st, tree):
+        """``for x, acc in zip(xs, accumulate((e(x) for x in xs), f, initial=a0))``: a running fold walked in step with its
+        own source is the loop ``acc = a0; for x in xs: <body>; acc = f(acc, e(x))`` (the fold advanced before the body when
+        the initial element was sliced off).  When xs is only the leading part of what the fold runs over, the fold object
+        is left positioned after it, carrying its state."""
+        it = s.iter
+        if not (isinstance(it, ast.Call) and isinstance(it.func, ast.Name) and it.func.id == "zip" and "zip" not in st.env
+                and len(it.args) == 2 and not it.keywords and not any(isinstance(a, ast.Starred) for a in it.args)
+                and isinstance(s.target, (ast.Tuple, ast.List)) and len(s.target.elts) == 2 and not s.orelse):
+            return None
+        if any(isinstance(x, ast.Continue) for b in s.body for x in ast.walk(b)):
+            return None
+        if not isinstance(it.args[1], (ast.Name, ast.Call, ast.Attribute)):
+            return None
+        pst = st.fork()
+        ptree: list = []
+        a = self.ev(pst, it.args[0], ptree)
+        g = self.ev(pst, it.args[1], ptree)
+        G = self.obj(g)
+        if not (isinstance(G, HGen) and G.qualname in self.SCANS and G.forced is None and not getattr(G, "consumed", False)
+                and len(G.args) == 3):
+            return None
+        src, fn, init = G.args
+        so = self.obj(src)
+        if not (isinstance(so, HList) and len(so.segs) == 1 and so.segs[0][0] == "loop" and len(so.segs[0][2]) == 1
+                and so.segs[0][2][0][0] == "e" and not getattr(so, "dirty", False)):
+            return None
+        lid0 = so.segs[0][1]
+        info0 = self.loops.get(lid0, {})
+        if info0.get("kind") != "comp" or info0.get("conds"):
+            return None
+        E = so.segs[0][2][0][1]
+        X = info0.get("iter")
+
+        def mentions(t, bad):
+            return isinstance(t, tuple) and (t in bad or any(mentions(x, bad) for x in t))
+        if mentions(E, {("idx", lid0)}):
+            return None
+        rest = None
+        if a != X:
+            xo = self.obj(X)
+            if isinstance(xo, HList) and not getattr(xo, "dirty", False) and xo.segs == [("s", a)]:
+                pass            # a copy of the same sequence
+            elif isinstance(xo, HList) and not getattr(xo, "dirty", False) and len(xo.segs) > 1 and xo.segs[0] == ("s", a):
+                rest = list(xo.segs[1:])
+            else:
+                return None
+        st.env, st.ext = pst.env, pst.ext
+        tree.extend(ptree)
+        k = next(self._loop)
+        nx, nacc, nsrc = f"__scan{k}_x", f"__scan{k}_acc", f"__scan{k}_src"
+        st.env[nsrc] = a
+        st.env[nacc] = init
+
+        def subst(t, old, new):
+            if not isinstance(t, tuple):
+                return t
+            if t == old:
+                return new
+            return tuple(subst(x, old, new) for x in t)
+
+        def step(st2, tree2):
+            e = subst(E, ("elem", lid0), st2.env[nx])
+            return self.apply(st2, fn, [st2.env[nacc], e], {}, s, tree2)
+        hook = ast.Constant(value=None)
+        hook._term_hook = step
+        L = lambda nm: ast.Name(id=nm, ctx=ast.Load())
+        bind_x = ast.Assign(targets=[s.target.elts[0]], value=L(nx))
+        bind_acc = ast.Assign(targets=[s.target.elts[1]], value=L(nacc))
+        advance = ast.Assign(targets=[ast.Name(id=nacc, ctx=ast.Store())], value=hook)
+        if G.qualname.endswith("p_scan_inclusive"):
+            body = [bind_x, advance, bind_acc] + list(s.body)
+        else:
+            body = [bind_x, bind_acc] + list(s.body) + [advance]
+        loop = ast.For(target=ast.Name(id=nx, ctx=ast.Store()), iter=L(nsrc), body=body, orelse=[])
+        for n_ in (loop, bind_x, bind_acc, advance):
+            ast.copy_location(n_, s)
+        ast.fix_missing_locations(loop)
+        out = self._loop_common(loop, st, tree, "for")
+        if rest is None:
+            G.consumed = True
+        elif out.live is not None:
+            # the fold continues over what follows the part walked here, from the state it reached
+            lid1 = next(self._loop)
+            rl = self.alloc(HList(rest, so.origin))
+            self.loops[lid1] = dict(info0, id=lid1, iter=rl)
+            m = self.alloc(HList([("loop", lid1, [("e", subst(E, ("elem", lid0), ("elem", lid1)))])], so.origin))
+            G.args = (m, fn, out.live.env.get(nacc, init))
+        return out
+
     def st_For(self, s, st, tree):
         if not s.orelse and self._is_search_loop(s):
             return self._search_loop(s, st, tree)
+        sc = self._scan_zip(s, st, tree)
+        if sc is not None:
+            return sc
         # a loop over a lazy generator of the repository is fused with the generator's body
         if isinstance(s.iter, (ast.Call, ast.Name)) and not s.orelse:
             exits = any(isinstance(x, (ast.Break, ast.Return)) for b in s.body for x in ast.walk(b))
